@@ -33,8 +33,22 @@ class Raised:
         """Position- and name-independent category of the operation (stable part of the description)."""
         return self.op.split(":")[0].split("(")[0].strip()
 
+    def attributed(self):
+        """The function a finding is filed under: where the operation sits, unless that is a private helper (`_name`) -- then the
+        nearest non-private caller on the call chain.  A step of `resolve` split out as `_relative_to_scope` stays resolve's."""
+        q = self.func.qual if self.func else "?"
+        def private(qual):
+            last = qual.split(".")[-1].split("[")[0]
+            return last.startswith("_") and not last.startswith("__")
+        if not private(q):
+            return q
+        for c in reversed([c for c in self.chain if c != q]):
+            if not private(c):
+                return c
+        return q
+
     def key(self):
-        return "%s|%s|%s" % (self.func.qual if self.func else "?", self.exc, self.cat())
+        return "%s|%s|%s" % (self.attributed(), self.exc, self.cat())
 
     def __repr__(self):
         return "<%s %s in %s>" % (self.exc, self.op, self.func.qual if self.func else "?")
@@ -749,6 +763,19 @@ class Interp:
                             return None
                         self.poke(a.args[0], new, s)
                     return s
+        # is / is not a module-level marker object (`_MISSING = object()`; `x = d.get(k, _MISSING); if x is _MISSING: ...`)
+        if isinstance(test, ast.Compare) and len(test.ops) == 1 and isinstance(test.ops[0], (ast.Is, ast.IsNot)) and isinstance(test.comparators[0], ast.Name) \
+                and self.cur_func is not None and test.comparators[0].id not in s.env:
+            rr = self.prog.resolve_name(self.cur_func.mod, test.comparators[0].id, self.cur_func)
+            if isinstance(rr, tuple) and rr[0] == "expr" and self.module_value(rr[1], test.comparators[0].id, rr[2]).kinds == frozenset(["sentinel"]):
+                cur = self.peek(test.left, s)
+                if cur is not None:
+                    eq = truth == isinstance(test.ops[0], ast.Is)
+                    new = cur.only(["sentinel"]) if eq else cur.without(["sentinel"])
+                    if new.empty:
+                        return None
+                    self.poke(test.left, new, s)
+                return s
         # is / is not with constants
         if isinstance(test, ast.Compare) and len(test.ops) == 1:
             op, l, r = test.ops[0], test.left, test.comparators[0]
@@ -1117,8 +1144,8 @@ class Interp:
             return AV(["obj:URIDict"], vals=AV(["cls:Validator"]))
         if name == "validators":
             return AV(["dict"], vals=AV(["cls:Validator"]))
-        if name == "_unset":
-            return AV(["sentinel"])
+        if name == "_unset" or (isinstance(expr, ast.Call) and norm(expr.func) == "object" and not expr.args and not expr.keywords):
+            return AV(["sentinel"])          # a private marker object: equal and identical only to itself
         if name in ("WEAK_MATCHES", "STRONG_MATCHES"):
             return AV(["set"], elem=AV(["str"]))
         if name == "_LATEST_VERSION" or (isinstance(expr, ast.Call) and norm(expr.func) == "create"):
